@@ -79,7 +79,10 @@ CHECK = {
                   "Jubjub): FieldInstructions::is_square accepts both bits for the argument 0 (is_square_zero_bit_free); "
                   "inside map_to_curve the argument is never 0 (svdw_gx_never_zero + jubjub_svdw_gx_nonzero_euler). Known "
                   "findings (recorded, not repaired): mul_by_constant >= 2^128 on the identity; BLS12-381 points of small "
-                  "order reach incomplete_add with equal operands (honest proof rejected, forged result accepted)",
+                  "order reach incomplete_add with equal operands (honest proof rejected, forged result accepted); the forged "
+                  "runs (`bls mulc_forge`) are made only where the forging prover and the model's incAddForge are defined: "
+                  "the LAST incomplete_add of mul_by_u128 has equal operands and no earlier one is exceptional (the harness "
+                  "re-derives this by simulating the loop on discrete logs and skips a table entry that does not satisfy it)",
     "assumptions": [
         "primality of the native modulus (Euler criterion for d is kernel-evaluated; the step to 'd is a non-square' uses primality)",
         "in the native field the product of two non-squares is a square (hypothesis hmul of svdw_candidates_one_is_square / "
